@@ -1061,6 +1061,183 @@ def render_guards_input():
     return "\n".join(GUARDS_HEADER) + "\n" + "\n\n".join(parts) + "\n"
 
 
+# ----------------------------------------------------------------------------
+# Coarse plans of Simulation.calculate / _calculate / _check_for_cycle /
+# purge_cache_of_invalid_values -> coq/gen/GuardsPlan.v
+#
+# Every statement is recognised (by a pattern with named holes) and replaced by its tag;
+# if / for / try keep their structure.  The ORDER and NESTING of the tags is what is
+# translated: moving a statement gives another list, an unknown statement fails closed.
+# ----------------------------------------------------------------------------
+
+def _plan(stmts, vocab, b, fn):
+    out = []
+    for st in stmts:
+        if isinstance(st, ast.AnnAssign) and st.value is None and isinstance(st.target, ast.Name):
+            continue                               # bare local annotation: no run-time effect
+        if (isinstance(st, ast.Assign) and len(st.targets) == 1 and isinstance(st.targets[0], ast.Name)
+                and (isinstance(st.value, ast.JoinedStr)
+                     or (isinstance(st.value, ast.Constant) and isinstance(st.value.value, str)))
+                and st.targets[0].id not in [v for k, v in b.items() if k != "@msgs"]):
+            b.setdefault("@msgs", set()).add(st.targets[0].id)
+            continue                               # the text of an error message
+        for src, tag in vocab.get("stmts", []):
+            if _matches(src, st, b):
+                if tag is not None:
+                    out.append(f"Do {tag}")
+                break
+        else:
+            if isinstance(st, ast.If) and not st.orelse:
+                for src, tag in vocab.get("tests", []):
+                    if _matches(src, st.test, b, mode="eval"):
+                        out.append(f"IfThen {tag} {_plan_list(_plan(st.body, vocab, b, fn))}")
+                        break
+                else:
+                    raise TranslationError(f"{_where(fn, st)}: test '{_src(st.test)}' is not a known step")
+            elif isinstance(st, ast.For) and not st.orelse:
+                for src, tag in vocab.get("iters", []):
+                    p = _pat(src)
+                    trial = dict(b)
+                    if _pmatch(p.iter, st.iter, trial) and _pmatch(p.target, st.target, trial):
+                        b.update(trial)
+                        out.append(f"ForEach {tag} {_plan_list(_plan(st.body, vocab, b, fn))}")
+                        break
+                else:
+                    raise TranslationError(f"{_where(fn, st)}: loop '{_line(st)}' is not a known step")
+            elif isinstance(st, ast.Try) and not st.orelse:
+                body = _plan(st.body, vocab, b, fn)
+                hs = []
+                for h in st.handlers:
+                    for src, tag in vocab.get("excs", []):
+                        if h.name is None and h.type is not None and _matches(src, h.type, b, mode="eval"):
+                            hs.append(f"({tag}, {_plan_list(_plan(h.body, vocab, b, fn))})")
+                            break
+                    else:
+                        raise TranslationError(f"{_where(fn, h)}: handler '{_line(h)}' is not a known step")
+                final = _plan(st.finalbody, vocab, b, fn)
+                out.append(f"TryExceptFinally {_plan_list(body)} [{'; '.join(hs)}] {_plan_list(final)}")
+            else:
+                raise TranslationError(f"{_where(fn, st)}: statement '{_line(st)}' is not a known step")
+    return out
+
+
+def _plan_list(items):
+    return "[" + "; ".join(items) + "]"
+
+
+def _render_plan(name, comment, items):
+    lines = [f"(* {comment} *)", f"Definition {name} : list step :=", "  ["]
+    lines += [f"    {it}{';' if k < len(items) - 1 else ''}" for k, it in enumerate(items)]
+    lines.append("  ].")
+    return "\n".join(lines)
+
+
+def plan_calculate(tree):
+    what = "Simulation.calculate"
+    fn = _func(tree, "calculate", cls="Simulation")
+    me, name, per = _params(fn, 3, what)
+    b = {"self": me, "name": name, "period": per}
+    vocab = {
+        "stmts": [
+            ("if __r_period is not None and not isinstance(__r_period, periods.Period):\n"
+             "    __r_period = periods.period(__r_period)", "ANormPeriod"),
+            ("__r_self.tracer.record_calculation_start(__r_name, __r_period)", "APush"),
+            ("__b_result = __r_self._calculate(__r_name, __r_period)", "ACalculate"),
+            ("__r_self.tracer.record_calculation_result(__r_result)", "ARecordResult"),
+            ("return __r_result", "AReturnResult"),
+            ("__r_self.tracer.record_calculation_end()", "APop"),
+            ("__r_self.purge_cache_of_invalid_values()", "APurge"),
+        ],
+    }
+    return _render_plan("gen_calculate_plan", what, _plan(_body(fn), vocab, b, what))
+
+
+def plan__calculate(tree):
+    what = "Simulation._calculate"
+    fn = _func(tree, "_calculate", cls="Simulation")
+    me, name, per = _params(fn, 3, what)
+    b = {"self": me, "name": name, "period": per}
+    vocab = {
+        "stmts": [
+            ("__b_population = __r_self.get_variable_population(__r_name)", "AGetPopulation"),
+            ("__b_holder = __r_population.get_holder(__r_name)", "AGetHolder"),
+            ("__b_variable = __r_self.tax_benefit_system.get_variable(__r_name, check_existence=True)", "AGetVariable"),
+            ("raise errors.VariableNotFoundError(__r_name, __r_self.tax_benefit_system)", "ARaiseNotFound"),
+            ("__r_self._check_period_consistency(__r_period, __r_variable)", "ACheckConsistency"),
+            ("__b_cached = __r_holder.get_array(__r_period)", "ACacheLookup"),
+            ('__r_self.invalidate_cache_entry(str(__r_frame["name"]), __r_frame["period"])', "AMarkFrame"),
+            ("return __r_cached", "AReturnCached"),
+            ("__b_array = None", "AInitNone"),
+            ("__r_self._check_for_cycle(__r_variable.name, __r_period)", "ACheckForCycle"),
+            ("__b_array = __r_self._run_formula(__r_variable, __r_population, __r_period)", "ARunFormula"),
+            ("__b_array = __r_holder.default_array()", "ADefaultArray"),
+            ("__b_array = __r_self._cast_formula_result(__r_array, __r_variable)", "ACast"),
+            ("__r_holder.put_in_cache(__r_array, __r_period)", "APutInCache"),
+            ("return __r_array", "AReturnArray"),
+        ],
+        "tests": [
+            ("__r_variable is None", "TVariableIsNone"),
+            ("__r_cached is not None", "TCachedIsNotNone"),
+            ("Cache(__r_name, __r_period) in __r_self.invalidated_caches", "TKeyInvalidated"),
+            ("__r_array is None", "TArrayIsNone"),
+        ],
+        "iters": [("for __b_frame in __r_self.tracer.stack:\n    pass", "IStackFrames")],
+        "excs": [("errors.SpiralError", "XSpiralError")],
+    }
+    return _render_plan("gen__calculate_plan", what, _plan(_body(fn), vocab, b, what))
+
+
+def plan_check_for_cycle(tree):
+    what = "Simulation._check_for_cycle"
+    fn = _func(tree, "_check_for_cycle", cls="Simulation")
+    me, var, per = _params(fn, 3, what)
+    b = {"self": me, "variable": var, "period": per}
+    vocab = {
+        "stmts": [
+            ('__b_previous = [__b_frame["period"] for __b_frame in __r_self.tracer.stack[:-1] '
+             'if __b_frame["name"] == __r_variable]', "APreviousPeriodsExcludeLast"),
+            ("raise errors.CycleError(__m_text)", "ARaiseCycle"),
+            ("__b_spiral = len(__r_previous) >= __r_self.max_spiral_loops", "ASpiralIfLenGeMax"),
+            ("__r_self.invalidate_spiral_variables(__r_variable)", "AInvalidateSpiral"),
+            ("raise errors.SpiralError(__m_text, __r_variable)", "ARaiseSpiral"),
+        ],
+        "tests": [
+            ("__r_period in __r_previous", "TPeriodInPrevious"),
+            ("__r_spiral", "TSpiral"),
+        ],
+    }
+    return _render_plan("gen_check_for_cycle_plan", what, _plan(_body(fn), vocab, b, what))
+
+
+def plan_purge(tree):
+    what = "Simulation.purge_cache_of_invalid_values"
+    fn = _func(tree, "purge_cache_of_invalid_values", cls="Simulation")
+    (me,) = _params(fn, 1, what)
+    b = {"self": me}
+    vocab = {
+        "stmts": [
+            ("return", "AReturn"),
+            ("__b_holder = __r_self.get_holder(__r_entry_name)", "AGetHolderOfEntry"),
+            ("__r_holder.delete_arrays(__r_entry_period)", "ADeleteArrays"),
+            ("__r_self.invalidated_caches = set()", "AResetInvalidated"),
+        ],
+        "tests": [("__r_self.tracer.stack", "TStackNonEmpty")],
+        "iters": [("for __b_entry_name, __b_entry_period in __r_self.invalidated_caches:\n    pass",
+                   "IInvalidatedEntries")],
+    }
+    return _render_plan("gen_purge_plan", what, _plan(_body(fn), vocab, b, what))
+
+
+def render_guards_plan():
+    tree = _sim_tree()
+    _no_rebinding(tree, SIM, {"set", "len", "str"})
+    cache = [n for n in tree.body if isinstance(n, ast.ClassDef) and n.name == "Cache"]
+    if len(cache) != 1:
+        raise TranslationError(f"{SIM}: class Cache not found exactly once")
+    parts = [plan_calculate(tree), plan__calculate(tree), plan_check_for_cycle(tree), plan_purge(tree)]
+    return "\n".join(GUARDS_HEADER) + "\n" + "\n\n".join(parts) + "\n"
+
+
 def render_guards():
     parts = [guard_check_consistency(), guard_add(), guard_divide(), guard_dispatch()]
     return "\n".join(GUARDS_HEADER) + "\n" + "\n\n".join(parts) + "\n"
@@ -1119,6 +1296,7 @@ GENERATED = [
     ("Guards.v", lambda: render_guards()),                 # engine guards            (props/C03.v)
     ("GuardsPeriod.v", lambda: render_guards_period()),    # Period.get_subperiods    (props/C04.v)
     ("GuardsInput.v", lambda: render_guards_input()),      # set_input routing        (props/C16.v, C18.v)
+    ("GuardsPlan.v", lambda: render_guards_plan()),        # order of the evaluator   (props/C18.v)
 ]
 
 
